@@ -127,6 +127,26 @@ def run_stage(ctx, prefixes, plan, nontrivial_fn=None, procs=16):
     return stats
 
 
+def run_directed(ctx, prefixes, prop):
+    """hand-kept scenarios under /verif/scenarios/<prop>-*.ndjson (reproducers of known findings that the random
+    profiles hit rarely, transcribed reports): run on the real scheduler and judged like every other scenario, so
+    that a known finding is demonstrated - and its signature re-derived - on every run."""
+    import glob
+    files = sorted(glob.glob(os.path.join(vlib.VERIF, "scenarios", "%s-*.ndjson" % prop)))
+    if not files:
+        return
+    binary = vlib.go_build("cluster")
+    scen = os.path.join(ctx.scratch, "directed-%s.ndjson" % prop)
+    with open(scen, "w") as f:
+        for fn in files:
+            f.write(open(fn).read())
+    trace = os.path.join(ctx.scratch, "directed-%s-trace.ndjson" % prop)
+    vlib.run_harness(binary, ["-in", scen, "-out", trace], timeout=1200)
+    stats = account(ctx, trace)
+    ctx.stage("directed-scenarios", files=[os.path.basename(x) for x in files], **stats)
+    vlib.validate_traces(ctx, MODULE, trace, invariants(prefixes), tuple(prefixes), timeout=1200, heap="4g", sig_detail=sig_detail, tag="-dir")
+
+
 def replay_stage(ctx, obj, prefixes):
     """`./verif replay <file>` for a violation reported by a ClusterTrace validation: the scenario of the
     recorded trace is run again on the REAL scheduler built from the current tree and the new trace is
